@@ -36,6 +36,10 @@ def base_dataset(kind, rng, side):
     disp = None
     if side == "L" or kind in (2, 3):
         disp = (-2, 2) if kind % 3 else (np.full((rows, cols), -3.0), np.full((rows, cols), 1.0))
+        if kind == 4:
+            disp = (1, 1)                       # min <= max: equality is well-formed
+        elif kind == 3:
+            disp[0][0, 0] = 1.0                 # ... also at a single pixel of a grid
     ds = build.make_image(data, mask=(rng.choice([0, 1, 2], size=(rows, cols)) if kind in (1, 2, 5) else None), disp=disp,
                           bands=[f"b{i}" for i in range(nb)] if nb > 1 else None)
     if kind in (3, 5) and nb > 1:
@@ -196,6 +200,9 @@ def run(tier):
         "grid3": build.write_tif(tmp / "g3.tif", np.zeros((3, H, W), dtype=np.float32)),
         "grid_size": build.write_tif(tmp / "gs.tif", np.stack([np.full((H + 1, W), -2.0), np.full((H + 1, W), 2.0)]).astype(np.float32)),
         "grid_inv": build.write_tif(tmp / "gi.tif", np.stack([np.full((H, W), 3.0), np.full((H, W), 2.0)]).astype(np.float32)),
+        # min <= max: equality is well-formed (everywhere, or at some pixels)
+        "grid_eq": build.write_tif(tmp / "ge.tif", np.stack([np.full((H, W), 2.0), np.full((H, W), 2.0)]).astype(np.float32)),
+        "grid_eq1": build.write_tif(tmp / "ge1.tif", np.stack([np.where(np.eye(H, W) > 0, 1.0, -2.0), np.full((H, W), 1.0)]).astype(np.float32)),
     }
     bases = [
         {"left": {"img": files["img_l"], "disp": [-2, 2]}, "right": {"img": files["img_r"]}},
@@ -203,6 +210,12 @@ def run(tier):
          "right": {"img": files["img_r"], "nodata": float("nan"), "mask": files["mask"], "disp": None}},
         {"left": {"img": files["img_l"], "disp": files["grid"]}, "right": {"img": files["img_r"]}},
         {"left": {"img": files["img_l"], "disp": files["grid"], "mask": files["mask"]}, "right": {"img": files["img_r"], "disp": files["grid_r"], "segm": files["segm"]}},
+    ]
+    nfault_bases = len(bases)
+    bases += [
+        {"left": {"img": files["img_l"], "disp": [1, 1]}, "right": {"img": files["img_r"]}},
+        {"left": {"img": files["img_l"], "disp": files["grid_eq"]}, "right": {"img": files["img_r"]}},
+        {"left": {"img": files["img_l"], "disp": files["grid_eq1"]}, "right": {"img": files["img_r"], "disp": files["grid_eq"]}},
     ]
     for bi, bsec in enumerate(bases):
         chk.count(("section_base", bi))
